@@ -176,6 +176,20 @@ def attempt(sim: BuilderSim, a, kind):
     if kind == "int-wire-untracked-builder":
         if not isinstance(a, Actor) or isinstance(a.b, TrackedDfg):
             return None
+        tr = [x for x in ancestors(a)[1:] if isinstance(getattr(x, "b", None), TrackedDfg) and not x.closed]
+        if tr and ch.coin(1, 2, "fault-reused-command"):
+            # the same Command object is first added, legitimately, to the tracked builder around this one
+            x = tr[0]
+            if not any(w is not None for w in x.b.tracked):
+                if not x.b.inputs():
+                    return None
+                x.b.track_inputs()
+            i = next(j for j, w in enumerate(x.b.tracked) if w is not None)
+            cmd = t.ops.Noop()(i)
+            n = x.b.add(cmd)
+            ctx.ev(x.id, "add (tracked builder)", f"Noop({i})", f"n{n.idx}")
+            ctx.probe("command_object_used_in_tracked_builder_first")
+            return (lambda: a.b.add(cmd)), None, f"add(the same Noop({i}) command object) in an untracked builder nested in the tracked one"
         i = ch.draw(3, "fault-int")
         if ch.coin(1, 2, "fault-extend"):
             return (lambda: a.b.extend(t.ops.Noop()(i))), None, f"extend(Noop({i})) in an untracked builder"
@@ -235,7 +249,7 @@ def run(ctx):
     ch = ctx.ch
     kind = KINDS[ch.draw(len(KINDS), "fault-kind")]
     root = None
-    if kind == "untracked-index":
+    if kind == "untracked-index" or (kind == "int-wire-untracked-builder" and ch.coin(1, 2, "root-tracked")):
         root = "tracked"
     elif kind in ("poly-no-instantiation", "poly-wrong-arg-count", "function-outputs-differ"):
         root = "module"
@@ -288,6 +302,11 @@ def run(ctx):
             ctx.violate("accepted", kind, {"call": desc, "actor": getattr(a, "kind", type(a).__name__)})
         elif expected is not None and not any(x in mro for x in expected):
             ctx.violate("wrong-exception", f"{kind}:{outcome}", {"call": desc, "expected": expected})
+        if not ctx.violations and outcome != "returned" and kind in ("no-sibling-ancestor", "outside-cfg") and ch.coin(1, 3, "complete-the-program-after"):
+            # the refused call left an operation without its inputs behind; the caller catches the error and finishes
+            # the program: what is serialised then still contains that incomplete operation
+            state["finish"] = True
+            return False
         if not ctx.violations and outcome != "returned" and ch.coin(1, 3, "second-fault"):
             # "refuse instead of recording": the refused call must not have recorded anything that makes a later
             # inconsistent call acceptable.  Inject one more fault of a conditional / exit kind on the same state.
@@ -330,3 +349,17 @@ def run(ctx):
         return
     if not state["done"]:
         ctx.discard = "fault-not-applicable:" + kind
+    elif state.get("finish"):
+        ctx.fault("second:serialise-incomplete")
+        ctx.checked("refuse-after-refusal")
+        try:
+            sim.hugr.to_json()
+            out = "returned"
+        except Exception as e:  # noqa: BLE001
+            out = type(e).__name__
+            mro = [c.__name__ for c in type(e).__mro__]
+        ctx.ev("root", "FAULT2:serialise-incomplete", "to_json of the finished program with the refused operation left in it", out)
+        if out == "returned":
+            ctx.violate("accepted", f"serialise-incomplete:after-a-refused-{kind}", {})
+        elif "IncompleteOp" not in mro:
+            ctx.violate("wrong-exception", f"serialise-incomplete:{out}:after-a-refused-{kind}", {})
